@@ -217,6 +217,8 @@ def run_doc_check(prop, tier, seed, driver_ok, *, n_quick, n_thorough, profiles,
                     continue
                 heur_stats["compared"] += 1
                 compared += 1
+                for k, v in (o.get("concl") or {}).items():
+                    hyp["searched_path:" + k] = hyp.get("searched_path:" + k, 0) + bool(v)
                 for d in heur.compare(r["case"]["doc"], r["heur"]["res"], o, r["heur"].get("author")):
                     mism.append({"corr": d[0], "case": light_case(r["case"]) | {"doc": r["case"]["doc"], "edits": r["heur"]["edits"]},
                                  "what": d[1]})
